@@ -300,4 +300,369 @@ Proof.
       destruct (N.eqb (case_class yl vr lvs) 0) eqn:E1; [congruence|]. apply N.eqb_neq in E1. congruence.
 Qed.
 
+(* ---- 4. per-leaf stability PROVED for the container grammar (simple_ty) ---------------------------------------- *)
+Section CtyInd.
+  Variable P : cty -> Prop.
+  Hypothesis HStr : P CStr.
+  Hypothesis HInt : P CInt.
+  Hypothesis HFloat : P CFloat.
+  Hypothesis HBool : P CBool.
+  Hypothesis HNone : P CNone.
+  Hypothesis HAny : P CAny.
+  Hypothesis HLit : forall ls, P (CLit ls).
+  Hypothesis HEnum : forall c ms, P (CEnum c ms).
+  Hypothesis HUnion : forall ts, Forall P ts -> P (CUnion ts).
+  Hypothesis HList : forall t, P t -> P (CList t).
+  Hypothesis HDict : forall b t, P t -> P (CDict b t).
+  Hypothesis HTuple : forall ts, Forall P ts -> P (CTuple ts).
+  Hypothesis HTupleVar : forall t, P t -> P (CTupleVar t).
+  Hypothesis HSet : forall t, P t -> P (CSet t).
+  Hypothesis HData : forall fs, P (CData fs).
+  Hypothesis HSub : forall cs, P (CSub cs).
+
+  Fixpoint cty_ind_c01 (t : cty) : P t :=
+    match t with
+    | CStr => HStr | CInt => HInt | CFloat => HFloat | CBool => HBool | CNone => HNone | CAny => HAny
+    | CLit ls => HLit ls
+    | CEnum c ms => HEnum c ms
+    | CUnion ts => HUnion ts ((fix go (ts : list cty) : Forall P ts :=
+                                 match ts with [] => Forall_nil _ | x :: r => Forall_cons x (cty_ind_c01 x) (go r) end) ts)
+    | CList t1 => HList t1 (cty_ind_c01 t1)
+    | CDict b t1 => HDict b t1 (cty_ind_c01 t1)
+    | CTuple ts => HTuple ts ((fix go (ts : list cty) : Forall P ts :=
+                                 match ts with [] => Forall_nil _ | x :: r => Forall_cons x (cty_ind_c01 x) (go r) end) ts)
+    | CTupleVar t1 => HTupleVar t1 (cty_ind_c01 t1)
+    | CSet t1 => HSet t1 (cty_ind_c01 t1)
+    | CData fs => HData fs
+    | CSub cs => HSub cs
+    end.
+End CtyInd.
+
+(* veq is reflexive *)
+Definition veq_all2 := fix all2 (x y : list val) : bool :=
+  match x, y with [], [] => true | u :: x', w :: y' => veq u w && all2 x' y' | _, _ => false end.
+Definition veq_sub := fix subset (x y : list val) : bool :=
+  match x with [] => true | u :: x' => existsb (veq u) y && subset x' y end.
+Definition veq_dsub := fix dsubset (x y : list (val * val)) : bool :=
+  match x with
+  | [] => true
+  | (k, u) :: x' => existsb (fun kw => veq k (fst kw) && veq u (snd kw)) y && dsubset x' y
+  end.
+Lemma veq_list_eq l l' : veq (VList l) (VList l') = veq_all2 l l'. Proof. reflexivity. Qed.
+Lemma veq_tuple_eq l l' : veq (VTuple l) (VTuple l') = veq_all2 l l'. Proof. reflexivity. Qed.
+Lemma veq_set_eq l l' : veq (VSet l) (VSet l') = Nat.eqb (length l) (length l') && veq_sub l l'. Proof. reflexivity. Qed.
+Lemma veq_dict_eq d d' : veq (VDict d) (VDict d') = Nat.eqb (length d) (length d') && veq_dsub d d'. Proof. reflexivity. Qed.
+
+Lemma fl_eqb_refl x : fl_eqb x x = true.
+Proof. destruct x as [m e|b|]; simpl; [rewrite !Z.eqb_refl; reflexivity|destruct b; reflexivity|reflexivity]. Qed.
+
+Lemma veq_all2_refl l : Forall (fun x => veq x x = true) l -> veq_all2 l l = true.
+Proof. induction 1; simpl; [reflexivity|]. rewrite H, IHForall. reflexivity. Qed.
+
+Lemma veq_sub_in x : forall y, Forall (fun u => veq u u = true) x -> (forall u, In u x -> In u y) -> veq_sub x y = true.
+Proof.
+  induction x as [|u x IH]; intros y Hr Hin; simpl; [reflexivity|].
+  inversion Hr; subst. apply andb_true_iff. split.
+  - apply existsb_exists. exists u. split; [apply Hin; left; reflexivity|assumption].
+  - apply IH; [assumption|]. intros w Hw. apply Hin. right. exact Hw.
+Qed.
+
+Lemma veq_dsub_in x : forall y, Forall (fun kv => veq (fst kv) (fst kv) = true /\ veq (snd kv) (snd kv) = true) x ->
+  (forall kv, In kv x -> In kv y) -> veq_dsub x y = true.
+Proof.
+  induction x as [|[k u] x IH]; intros y Hr Hin; simpl; [reflexivity|].
+  inversion Hr; subst. simpl in H1. destruct H1 as [Hk Hu]. apply andb_true_iff. split.
+  - apply existsb_exists. exists (k, u). split; [apply Hin; left; reflexivity|]. simpl. rewrite Hk, Hu. reflexivity.
+  - apply IH; [assumption|]. intros w Hw. apply Hin. right. exact Hw.
+Qed.
+
+Lemma veq_refl : forall v, veq v v = true.
+Proof.
+  induction v using val_ind_c01; try reflexivity.
+  - simpl. destruct b; reflexivity.
+  - simpl. apply Z.eqb_refl.
+  - simpl. apply fl_eqb_refl.
+  - simpl. apply str_eqb_refl.
+  - rewrite veq_list_eq. apply veq_all2_refl. assumption.
+  - rewrite veq_tuple_eq. apply veq_all2_refl. assumption.
+  - rewrite veq_set_eq, Nat.eqb_refl. simpl. apply veq_sub_in; [assumption|auto].
+  - rewrite veq_dict_eq, Nat.eqb_refl. simpl. apply veq_dsub_in; [assumption|auto].
+  - simpl. rewrite !str_eqb_refl. reflexivity.
+  - simpl. rewrite !str_eqb_refl. reflexivity.
+Qed.
+
+Lemma map_opt_pair {A B} (f : A -> option B) (g : B -> option A) (l : list A) :
+  Forall (fun x => exists j, f x = Some j /\ g j = Some x) l ->
+  exists js, map_opt f l = Some js /\ map_opt g js = Some l.
+Proof.
+  induction 1 as [|x l (j & Hf & Hg) _ (js & H1 & H2)].
+  - exists []. split; reflexivity.
+  - exists (j :: js). simpl. rewrite Hf, H1. simpl. rewrite Hg, H2. split; reflexivity.
+Qed.
+
+Definition tuple_go (F : cty -> val -> option val) := fix go (ts : list cty) (l : list val) : option (list val) :=
+  match ts, l with
+  | t1 :: ts', x :: l' => match F t1 x, go ts' l' with Some w, Some r => Some (w :: r) | _, _ => None end
+  | _, _ => Some []
+  end.
+
+Lemma adapt_tuple_eq m o ts v :
+  adapt yl m o (CTuple ts) v =
+  match seq_items v with
+  | None => None
+  | Some l => if negb (Nat.eqb (length l) (length ts)) then None
+              else match tuple_go (adapt yl (sub_mode m) o) ts l with
+                   | Some r => Some (if is_ser m then VList r else VTuple r)
+                   | None => None
+                   end
+  end.
+Proof. reflexivity. Qed.
+
+Lemma adapt_list_eq m o t1 v :
+  adapt yl m o (CList t1) v =
+  match seq_items v with
+  | Some l => match map_opt (adapt yl (item_mode m t1) o t1) l with Some r => Some (VList r) | None => None end
+  | None => None
+  end.
+Proof. reflexivity. Qed.
+
+Lemma adapt_tuplevar_eq m o t1 v :
+  adapt yl m o (CTupleVar t1) v =
+  match seq_items v with
+  | None => None
+  | Some l => match map_opt (adapt yl (sub_mode m) o t1) l with
+              | Some r => Some (if is_ser m then VList r else VTuple r)
+              | None => None
+              end
+  end.
+Proof. reflexivity. Qed.
+
+Lemma adapt_dict_eq m o t1 d :
+  adapt yl m o (CDict false t1) (VDict d) =
+  match map_opt (fun kv : val * val => match adapt yl (sub_mode m) o t1 (snd kv) with
+                                       | Some w => Some (fst kv, w)
+                                       | None => None
+                                       end) d with
+  | Some r => Some (VDict r)
+  | None => None
+  end.
+Proof. reflexivity. Qed.
+
+Definition wt_go := fix go (ts : list cty) (l : list val) : bool :=
+  match ts, l with [], [] => true | t1 :: ts', x :: l' => wt t1 x && go ts' l' | _, _ => false end.
+Lemma wt_tuple_eq ts l : wt (CTuple ts) (VTuple l) = wt_go ts l. Proof. reflexivity. Qed.
+
+Lemma tuple_go_pair (F G : cty -> val -> option val) : forall ts l,
+  Forall (fun t => forall x, wt t x = true -> exists j, F t x = Some j /\ G t j = Some x) ts ->
+  wt_go ts l = true ->
+  length l = length ts /\ exists js, tuple_go F ts l = Some js /\ tuple_go G ts js = Some l /\ length js = length ts.
+Proof.
+  induction ts as [|t ts IH]; intros l HF Hw; destruct l as [|x l]; simpl in Hw; try discriminate.
+  - split; [reflexivity|]. exists []. repeat split; reflexivity.
+  - apply andb_true_iff in Hw. destruct Hw as [Hx Hl]. inversion HF; subst.
+    destruct (H1 x Hx) as (j & Hf & Hg). destruct (IH l H2 Hl) as (Hlen & js & H3 & H4 & H5).
+    split; [simpl; congruence|]. exists (j :: js). simpl. rewrite Hf, H3, Hg, H4. repeat split; simpl; congruence.
+Qed.
+
+Lemma opt_union_none o v t1 r1 w : is_cnone t1 = false -> adapt_union o v [(t1, r1); (CNone, Some w)] = Some w.
+Proof.
+  intros H. unfold adapt_union, stable_sort. simpl. unfold union_key. simpl. rewrite H.
+  destruct (is_str v), (is_seqmap t1); reflexivity.
+Qed.
+
+Lemma opt_union_some o v t1 w : is_cnone t1 = false -> adapt_union o v [(t1, Some w); (CNone, None)] = Some w.
+Proof.
+  intros H. unfold adapt_union, stable_sort. simpl. unfold union_key. simpl. rewrite H.
+  destruct (is_str v), (is_seqmap t1), o; reflexivity.
+Qed.
+
+Lemma adapt_opt_eq m o t1 v :
+  adapt yl m o (CUnion [t1; CNone]) v = adapt_union o v [(t1, adapt yl (union_mode m) o t1 v); (CNone, adapt_leaf yl KNone v)].
+Proof. reflexivity. Qed.
+
+Lemma leaf_none_reject v : is_str v = false -> is_vnone v = false -> adapt_leaf yl KNone v = None.
+Proof. destruct v; simpl; intros; try discriminate; reflexivity. Qed.
+
+Definition opt_arg (t1 : cty) : bool := match t1 with CStr | CNone | CUnion _ => false | _ => true end.
+
+Lemma wt_opt_arg t1 w : opt_arg t1 = true -> wt t1 w = true -> is_str w = false /\ is_vnone w = false.
+Proof.
+  destruct t1; try discriminate; intros _ H; destruct w; simpl in H; try discriminate; try (split; reflexivity);
+    destruct int_keys; discriminate.
+Qed.
+
+Lemma adapt_cstr m o v : adapt yl m o CStr v = adapt_leaf yl KStr v.
+Proof. reflexivity. Qed.
+Lemma adapt_leaf_str s : adapt_leaf yl KStr (VStr s) = Some (VStr s).
+Proof. reflexivity. Qed.
+Lemma adapt_leaf_str_rej x : is_str x = false -> adapt_leaf yl KStr x = None.
+Proof. destruct x; simpl; intros; try discriminate; reflexivity. Qed.
+Lemma parse_value_cases s :
+  parse_value yl (VStr s) = VStr s \/ exists x, simple_scalar x = false /\ parse_value yl (VStr s) = x.
+Proof.
+  unfold parse_value.
+  repeat (match goal with |- context [match ?e with _ => _ end] => destruct e eqn:? end);
+    try (left; reflexivity); right; eexists; (split; [|reflexivity]; assumption).
+Qed.
+
+Definition stable_at (t : cty) : Prop :=
+  simple_ty t = true -> forall w, wt t w = true -> forall sn o1 f p o2,
+    exists j, adapt yl (Ser sn) o1 t w = Some j /\ adapt yl (Des f p) o2 t j = Some w /\
+              is_vnone j = is_vnone w /\ (is_str j = true -> t = CStr) /\ (simple_scalar w = true -> j = w).
+
+Lemma des_sub_mode f p : exists f' p', sub_mode (Des f p) = Des f' p'.
+Proof. destruct f; simpl; eauto. Qed.
+Lemma des_item_mode f p t : exists f' p', item_mode (Des f p) t = Des f' p'.
+Proof. destruct f; simpl; try destruct (is_cdata t); eauto. Qed.
+Lemma des_union_mode f p : exists f' p', union_mode (Des f p) = Des f' p'.
+Proof. destruct f; simpl; eauto. Qed.
+
+Lemma forallb_Forall {A} (q : A -> bool) l : forallb q l = true -> Forall (fun x => q x = true) l.
+Proof. intros H. apply Forall_forall. intros x Hx. rewrite forallb_forall in H. auto. Qed.
+
+Theorem simple_rt : forall t, stable_at t.
+Proof.
+  induction t using cty_ind_c01; unfold stable_at; intros Hs w Hw sn o1 f p o2; try discriminate.
+  - destruct w; try discriminate. exists (VStr s). simpl. repeat split; auto.
+  - destruct w; try discriminate. exists (VInt z). simpl. repeat split; auto; discriminate.
+  - destruct w; try discriminate. exists (VFloat f0). simpl. repeat split; auto; discriminate.
+  - destruct w; try discriminate. exists (VBool b). simpl. repeat split; auto; discriminate.
+  - (* Optional *)
+    destruct ts as [|t1 [|t2 ts']]; try discriminate. destruct t2; try discriminate. destruct ts'; try discriminate.
+    assert (Ho : opt_arg t1 = true) by (destruct t1; simpl in Hs |- *; try discriminate; reflexivity).
+    assert (Hs1 : simple_ty t1 = true) by (destruct t1; simpl in Hs |- *; try discriminate; exact Hs).
+    assert (Hcn : is_cnone t1 = false) by (destruct t1; try discriminate; reflexivity).
+    inversion H as [|? ? IH1 _]; subst.
+    change (wt (CUnion [t1; CNone]) w) with (is_vnone w || wt t1 w) in Hw.
+    destruct (is_vnone w) eqn:En.
+    + destruct w; try discriminate. exists VNone. rewrite !adapt_opt_eq. simpl adapt_leaf.
+      rewrite (opt_union_none o1 VNone t1 _ VNone Hcn), (opt_union_none o2 VNone t1 _ VNone Hcn).
+      repeat split; auto; discriminate.
+    + simpl in Hw. destruct (wt_opt_arg t1 w Ho Hw) as [Hns Hnn].
+      destruct (des_union_mode f p) as (f' & p' & Em).
+      destruct (IH1 Hs1 w Hw sn o1 f' p' o2) as (j & Hser & Hdes & Hjn & Hjs & Hsc).
+      exists j. rewrite !adapt_opt_eq. change (union_mode (Ser sn)) with (Ser sn). rewrite Em, Hser, Hdes.
+      assert (Hjs' : is_str j = false).
+      { destruct (is_str j) eqn:E; [|reflexivity]. specialize (Hjs eq_refl). subst t1. discriminate. }
+      rewrite (leaf_none_reject w Hns Hnn), (leaf_none_reject j Hjs' (eq_trans Hjn Hnn)).
+      rewrite !opt_union_some by exact Hcn.
+      split; [reflexivity|]. split; [reflexivity|]. split; [congruence|].
+      split; [intros E; rewrite E in Hjs'; discriminate|exact Hsc].
+  - (* List *)
+    destruct w; try discriminate. simpl in Hs, Hw.
+    destruct (des_item_mode f p t) as (f' & p' & Em).
+    destruct (map_opt_pair (adapt yl (Ser sn) o1 t) (adapt yl (Des f' p') o2 t) l) as (js & H1 & H2).
+    { apply forallb_Forall in Hw. eapply Forall_impl; [|exact Hw]. intros x Hx.
+      destruct (IHt Hs x Hx sn o1 f' p' o2) as (j & ? & ? & _). eauto. }
+    exists (VList js). rewrite !adapt_list_eq. change (item_mode (Ser sn) t) with (Ser sn). rewrite Em. simpl seq_items; cbv beta iota.
+    rewrite H1, H2. repeat split; auto; discriminate.
+  - (* Dict[str, T] *)
+    destruct b; try discriminate. destruct w; try discriminate. simpl in Hs, Hw.
+    destruct (des_sub_mode f p) as (f' & p' & Em).
+    destruct (map_opt_pair
+                (fun kv : val * val => match adapt yl (Ser sn) o1 t (snd kv) with Some w => Some (fst kv, w) | None => None end)
+                (fun kv : val * val => match adapt yl (Des f' p') o2 t (snd kv) with Some w => Some (fst kv, w) | None => None end) d)
+      as (js & H1 & H2).
+    { apply forallb_Forall in Hw. eapply Forall_impl; [|exact Hw]. intros [k x] Hx. simpl in Hx.
+      apply andb_true_iff in Hx. destruct Hx as [_ Hx].
+      destruct (IHt Hs x Hx sn o1 f' p' o2) as (j & E1 & E2 & _). exists (k, j). simpl. rewrite E1, E2. split; reflexivity. }
+    exists (VDict js). rewrite !adapt_dict_eq. change (sub_mode (Ser sn)) with (Ser sn). rewrite Em.
+    rewrite H1, H2. repeat split; auto; discriminate.
+  - (* Tuple *)
+    destruct w; try discriminate. rewrite wt_tuple_eq in Hw. simpl in Hs.
+    destruct (des_sub_mode f p) as (f' & p' & Em).
+    destruct (tuple_go_pair (adapt yl (Ser sn) o1) (adapt yl (Des f' p') o2) ts l) as (Hlen & js & H1 & H2 & H3); [|exact Hw|].
+    { apply forallb_Forall in Hs. rewrite Forall_forall in *. intros t Ht x Hx.
+      destruct (H t Ht (Hs t Ht) x Hx sn o1 f' p' o2) as (j & ? & ? & _). eauto. }
+    exists (VList js). rewrite !adapt_tuple_eq. change (sub_mode (Ser sn)) with (Ser sn). rewrite Em. simpl seq_items; cbv beta iota.
+    rewrite Hlen, H3, Nat.eqb_refl. simpl. rewrite H1, H2. repeat split; auto; discriminate.
+  - (* Tuple[T, ...] *)
+    destruct w; try discriminate. simpl in Hs, Hw.
+    destruct (des_sub_mode f p) as (f' & p' & Em).
+    destruct (map_opt_pair (adapt yl (Ser sn) o1 t) (adapt yl (Des f' p') o2 t) l) as (js & H1 & H2).
+    { apply forallb_Forall in Hw. eapply Forall_impl; [|exact Hw]. intros x Hx.
+      destruct (IHt Hs x Hx sn o1 f' p' o2) as (j & ? & ? & _). eauto. }
+    exists (VList js). rewrite !adapt_tuplevar_eq. change (sub_mode (Ser sn)) with (Ser sn). rewrite Em. simpl seq_items; cbv beta iota.
+    rewrite H1, H2. repeat split; auto; discriminate.
+Qed.
+
+(* every accepted value of a leaf of the container grammar survives its own serialise / parse pair: the premise of
+   roundtrip_ok, for ANY loader oracle yl and any declared default *)
+Theorem leaf_stable_simple sn lf w :
+  leaf_simple (lf, w) = true -> leaf_stable sn lf w.
+Proof.
+  unfold leaf_simple. simpl. intros H. apply andb_true_iff in H. destruct H as [Hs Hw].
+  destruct (is_vnone w) eqn:En; [left; destruct w; try discriminate; reflexivity|]. simpl in Hw. right.
+  set (t := lf_ty lf) in *. set (dflt := lf_def lf).
+  set (fl0 := if is_dc_direct t then FAll else FNo).
+  destruct (simple_rt t Hs w Hw sn None fl0 dflt None) as (j & Hser & Hdes & Hjn & Hjs & Hsc).
+  assert (Hsl : ser_leaf yl sn t dflt w = Some j).
+  { unfold ser_leaf. destruct (simple_scalar w) eqn:Esc; simpl; [|exact Hser].
+    destruct (py_eq w dflt); [|exact Hser]. rewrite (Hsc eq_refl). reflexivity. }
+  exists j. split; [exact Hsl|]. exists w. split; [|apply veq_refl].
+  unfold check_entry. assert (Hnn : is_vnone j = false) by congruence.
+  destruct j as [| | | |s| | | | | |] eqn:Ej; try discriminate;
+    try (unfold check_type, check_with; simpl parse_value; fold fl0; rewrite Hdes; reflexivity).
+  (* a str: the type is str; whatever the loader makes of the text, the original string is what is kept *)
+  assert (Et : t = CStr) by (apply Hjs; reflexivity).
+  assert (Ew : w = VStr s).
+  { rewrite Et in Hw. destruct w; try discriminate. symmetry. apply Hsc. reflexivity. }
+  subst w. rewrite Et. unfold check_type, check_with. rewrite !adapt_cstr.
+  destruct (parse_value_cases s) as [E|(x & Ex & E)]; rewrite E.
+  - rewrite adapt_leaf_str. reflexivity.
+  - rewrite (adapt_leaf_str_rej x) by (destruct x; try discriminate; reflexivity).
+    rewrite adapt_leaf_str. destruct (py_eq (VStr s) dflt); reflexivity.
+Qed.
+
+(* (P') the round trip for parsers of the container grammar: no stability premise left *)
+Theorem roundtrip_simple_ok vr lvs :
+  case_class yl vr lvs = 0%N ->
+  forallb leaf_simple lvs = true ->
+  exists ws, roundtrip yl plain_ok yrepr jrepr dtab ltab vr lvs = Some ws /\
+             Forall2 (fun w' w => veq w' w = true) ws (map snd lvs).
+Proof.
+  intros Hc Hs. apply roundtrip_ok; [exact Hc|].
+  apply Forall_forall. intros [lf w] Hin. simpl. apply leaf_stable_simple.
+  rewrite forallb_forall in Hs. exact (Hs _ Hin).
+Qed.
+
+(* the same for a dump taken by a parser with subcommands (class 13 = the crash of skip_default over a required subcommand) *)
+Lemma leaf_var_skip_none sub vr lf : vr_skip_none (leaf_var sub vr lf) = vr_skip_none vr.
+Proof. unfold leaf_var. destruct sub; [destruct (is_prefix s (lf_key lf))|]; reflexivity. Qed.
+
+Lemma roundtrip_sub_ok sub vr : forall lvs,
+  case_class_sub yl sub vr lvs = 0%N ->
+  Forall (fun lw => leaf_stable (vr_skip_none vr) (fst lw) (snd lw)) lvs ->
+  exists ws, map_opt (fun lw => leaf_rt yl plain_ok yrepr jrepr dtab ltab (leaf_var sub vr (fst lw)) (fst lw) (snd lw)) lvs = Some ws /\
+             Forall2 (fun w' w => veq w' w = true) ws (map snd lvs).
+Proof.
+  induction lvs as [|[lf w] lvs IH]; intros Hc Hst.
+  - exists []. split; [reflexivity|constructor].
+  - assert (Hc' : (if N.eqb (leaf_class yl (leaf_var sub vr lf) (lf, w)) 0 then case_class_sub yl sub vr lvs
+                   else if N.eqb (leaf_class yl (leaf_var sub vr lf) (lf, w)) 11
+                        then (if N.eqb (case_class_sub yl sub vr lvs) 0 then leaf_class yl (leaf_var sub vr lf) (lf, w)
+                              else case_class_sub yl sub vr lvs)
+                        else leaf_class yl (leaf_var sub vr lf) (lf, w)) = 0%N) by exact Hc.
+    clear Hc. rename Hc' into Hc. destruct (N.eqb (leaf_class yl (leaf_var sub vr lf) (lf, w)) 0) eqn:E0.
+    + apply N.eqb_eq in E0. inversion Hst; subst. simpl in H1.
+      rewrite <- (leaf_var_skip_none sub vr lf) in H1.
+      destruct (leaf_rt_ok (leaf_var sub vr lf) lf w E0 H1) as (w' & Hrt & Hv).
+      destruct (IH Hc H2) as (ws & Hws & Hall).
+      exists (w' :: ws). split.
+      * simpl. rewrite Hrt, Hws. reflexivity.
+      * constructor; assumption.
+    + apply N.eqb_neq in E0. destruct (N.eqb (leaf_class yl (leaf_var sub vr lf) (lf, w)) 11); [|congruence].
+      destruct (N.eqb (case_class_sub yl sub vr lvs) 0) eqn:E1; [congruence|]. apply N.eqb_neq in E1. congruence.
+Qed.
+
+Theorem roundtrip_top_ok req_sub sub vr lvs :
+  top_class yl req_sub sub vr lvs = 0%N ->
+  Forall (fun lw => leaf_stable (vr_skip_none vr) (fst lw) (snd lw)) lvs ->
+  exists ws, roundtrip_top yl plain_ok yrepr jrepr dtab ltab req_sub sub vr lvs = Some ws /\
+             Forall2 (fun w' w => veq w' w = true) ws (map snd lvs).
+Proof.
+  unfold top_class, roundtrip_top. destruct (dump_crashes req_sub vr); [discriminate|].
+  destruct (sub_emptied yl sub vr lvs); [discriminate|]. apply roundtrip_sub_ok.
+Qed.
+
 End Text.
